@@ -200,6 +200,32 @@ def signature(case, msg):
 
 
 def replay(case):
+    if "wide" in case:
+        # the wide-network family is regenerated from the recorded seed and re-run as a whole
+        class _R:
+            def __init__(self):
+                self.msg = None
+
+            def nontrivial_case(self, *_a):
+                pass
+
+            def count(self, *_a):
+                pass
+
+            def fired(self, *_a):
+                pass
+
+            def scope(self, *_a, **_k):
+                pass
+
+            def violation(self, sig, _body):
+                self.msg = sig
+
+        r = _R()
+        run_wide(r, "quick", random.Random(f"{case.get('seed', 0)}|C01|wide"))
+        if r.msg is None:
+            return True, "every wide-network contraction equals the matrix-chain product"
+        return False, r.msg
     inputs = tuple(tuple(t) for t in case["inputs"])
     output = tuple(case["output"])
     sd = {k: int(v) for k, v in case["sizes"].items()}
@@ -360,6 +386,120 @@ def _plans(tier, rng):
     return out
 
 
+# --------------------------------------------------------------------------
+# wide networks: more than 52 distinct indices (extended symbols beyond a-zA-Z)
+# --------------------------------------------------------------------------
+def _wide_networks():
+    import cotengra as ctg
+
+    sym = ctg.utils.get_symbol
+    out = []
+    for L in (30, 58):
+        plain = [(sym(k), sym(k + 1)) for k in range(L)]
+        out.append((f"chain{L}", plain, (sym(0), sym(L)), None))
+        # a hyper index shared by every third tensor and kept in the output
+        h = sym(L + 5)
+        hyper = [((h,) + t if k % 3 == 0 else t) for k, t in enumerate(plain)]
+        out.append((f"hyperchain{L}", hyper, (h, sym(0), sym(L)), h))
+    return out
+
+
+def _wide_trees(L, rng):
+    left = []
+    cur = 0
+    for k in range(1, L):
+        left.append((cur, k))
+        cur = L + k - 1
+    right = []
+    cur = L - 1
+    for k in range(L - 2, -1, -1):
+        right.append((k, cur))
+        cur = L + (L - 2 - k)
+    bal, ids, nxt = [], list(range(L)), L
+    while len(ids) > 1:
+        new = []
+        for a in range(0, len(ids) - 1, 2):
+            bal.append((ids[a], ids[a + 1]))
+            new.append(nxt)
+            nxt += 1
+        if len(ids) % 2:
+            new.append(ids[-1])
+        ids = new
+    # (only trees whose intermediates stay small: a random tree on a chain builds huge outer products)
+    mid, cur = [], None
+    half = L // 2
+    seq = [half]
+    for d in range(1, L):
+        for k in (half - d, half + d):
+            if 0 <= k < L and len(seq) < L:
+                seq.append(k)
+    cur, nxt = seq[0], L
+    for k in seq[1:]:
+        mid.append((cur, k))
+        cur, nxt = nxt, nxt + 1
+    return [("left-to-right", left), ("right-to-left", right), ("balanced", bal), ("middle-out", mid)]
+
+
+def _wide_reference(inputs, output, mats, h):
+    """independent evaluation: product of the 2x2 matrices (for each value of the hyper index)"""
+    def chain(hval):
+        acc = None
+        for t, m in zip(inputs, mats):
+            mm = m[hval] if (h is not None and t[0] == h) else m
+            mm = [[mm[a][b] for b in range(2)] for a in range(2)]
+            acc = mm if acc is None else [[sum(acc[a][c] * mm[c][b] for c in range(2)) for b in range(2)] for a in range(2)]
+        return acc
+
+    if h is None:
+        return chain(0)
+    return [chain(0), chain(1)]
+
+
+def run_wide(rep, tier, rng):
+    """real tree.contract on networks with 59-64 distinct indices (integer entries, exact) against a matrix-chain product"""
+    import numpy as np
+    from cotengra import ContractionTree
+
+    n_eval = 0
+    opts = [(False, None), (True, None), (False, "cotengra"), (True, "autoray"), (False, "autoray")]
+    for name, inputs, output, h in _wide_networks():
+        L = len(inputs)
+        sd = {ix: 2 for t in inputs for ix in t}
+        mats = []
+        for t in inputs:
+            if h is not None and t[0] == h:
+                mats.append([[[rng.choice((-1, 0, 1, 2)) for _ in range(2)] for _ in range(2)] for _ in range(2)])
+            else:
+                mats.append([[rng.choice((-1, 0, 1, 2)) for _ in range(2)] for _ in range(2)])
+        arrays = [np.array(m, dtype=object) for m in mats]
+        want = np.array(_wide_reference(inputs, output, mats, h), dtype=object)
+        for tname, ssa in _wide_trees(L, rng):
+            for pe, impl in opts:
+                for sort in (None, "flops"):
+                    label = f"C01 wide network {name} ({len(sd)} indices) tree={tname} prefer_einsum={pe} implementation={impl!r} sort={sort!r}"
+                    with warnings.catch_warnings():
+                        warnings.simplefilter("ignore")
+                        try:
+                            tree = ContractionTree.from_path(inputs, output, sd, ssa_path=ssa)
+                            if sort:
+                                tree.sort_contraction_indices(priority=sort)
+                            got = np.asarray(tree.contract(arrays, prefer_einsum=pe, implementation=impl), dtype=object)
+                            ok = got.shape == want.shape and bool((got == want).all())
+                            msg = None if ok else ("wrong shape %s" % (got.shape,) if got.shape != want.shape else "wrong values")
+                        except Exception as e:  # noqa: BLE001
+                            msg = f"raised {type(e).__name__}: {str(e)[:100]}"
+                    n_eval += 1
+                    rep.nontrivial_case(_digest(label))
+                    if msg is not None:
+                        rep.violation(label + ": " + msg, {"module": MODULE, "case": {"wide": name, "tree": tname, "prefer_einsum": pe, "implementation": impl, "sort": sort, "seed": seed()}})
+                        return n_eval
+    rep.count(n_eval)
+    rep.fired("wide networks: contract == matrix-chain product", n_eval)
+    rep.scope("wide networks (> 52 distinct indices)", n_eval, False,
+              bound="matrix chains of 30 and 58 tensors (31-64 distinct indices, extended symbols), plain and with a hyper index kept in the output; 4 trees x 5 option sets x 2 index orders; integer entries, exact comparison with an independent matrix-chain product")
+    return n_eval
+
+
 def run_bounded(rep: Report, tier: str) -> None:
     global _DEADLINE
     rng = random.Random(f"{seed()}|C01|plans")
@@ -426,6 +566,8 @@ def run_bounded(rep: Report, tier: str) -> None:
         if reported >= 5:
             break
     rep.extra["c01_violating_cases_seen"] = len(viols)
+    if not viols:
+        run_wide(rep, tier, random.Random(f"{seed()}|C01|wide"))
     rep.explanation += (
         "C01 bounded-symbolic: the real ContractionTree.from_path(...).contract(arrays, order, prefer_einsum, implementation) "
         "(after sort_contraction_indices(priority) where stated) ran on numpy object arrays of distinct polynomial variables; "
